@@ -226,7 +226,10 @@ def tree_validate(doc: Doc, root: Any, leafkey: str) -> Dict[str, int]:
             arr = deref(doc, names)
             if len(arr) % 2:
                 raise TreeError("odd leaf array")
-            keys = [arr[i] for i in range(0, len(arr), 2)]
+            for i in range(0, len(arr), 2):
+                if isinstance(arr[i], Ref):                  # a key written as an indirect reference
+                    stats["leaf_key_refs"] = stats.get("leaf_key_refs", 0) + 1
+            keys = [deref(doc, arr[i]) for i in range(0, len(arr), 2)]
             if not is_root and not keys:
                 raise TreeError("empty non-root leaf")
             for a, b in zip(keys, keys[1:]):
@@ -279,7 +282,7 @@ def tree_flatten(doc: Doc, root: Any, leafkey: str) -> List[Tuple[Any, Any]]:
         if names is not None:
             arr = deref(doc, names)
             for i in range(0, len(arr), 2):
-                out.append((arr[i], arr[i + 1]))
+                out.append((deref(doc, arr[i]), arr[i + 1]))
         else:
             for k in deref(doc, _get(d, "Kids")):
                 walk(k)
@@ -297,7 +300,7 @@ def tree_lookup(doc: Doc, root: Any, leafkey: str, key: Any) -> Tuple[bool, Any]
         if names is not None:
             arr = deref(doc, names)
             for i in range(0, len(arr), 2):
-                if arr[i] == key:
+                if deref(doc, arr[i]) == key:
                     return True, arr[i + 1]
             return False, None
         nxt = None
